@@ -50,6 +50,8 @@ GROUPS = {
                  modpath="searcher::verif_c15_routing", crate=ENGINE),
     "c18": dict(file="c18.rs", into="weechess-engine/src/uci.rs", scope=None, mod="verif_c18", pub=False,
                 modpath="uci::verif_c18", crate=ENGINE),
+    "c11w": dict(file="c11_writer.rs", into="weechess-core/src/notation.rs", scope="mod fen", mod="verif_c11_writer", pub=True,
+                 modpath="notation::fen::verif_c11_writer", crate=CORE),
     "c01p": dict(file="c01_perft.rs", into="weechess-engine/src/searcher.rs", scope=None, mod="verif_c01_perft", pub=False,
                  modpath="searcher::verif_c01_perft", crate=ENGINE),
 }
@@ -69,6 +71,9 @@ EXTRACTS = [
                 "previous_artifact: Option<SearchArtifact>) -> (ZobristHasher, TranspositionTableAccess, StateHistory, Hash) {",
          footer="let _pin_type: &Option<Move> = &best_mv; // the local's type is inferred from the loop, which is not extracted\n"
                 "(hasher, transpositions, state_history, game_state_hash)\n"),
+    # the FEN writer: whole body of `<Fen as IntoNotation<State>>::into_notation`, compiled in the harness with `write!` bound to a byte sink
+    dict(kind="fn_body", file="weechess-core/src/notation.rs", scopes=["mod fen", "impl IntoNotation<State> for Fen"], fn="into_notation",
+         out="fen_writer_extracted.rs", header="pub fn fen_writer_body(value: &State, f: &mut Sink) -> std::fmt::Result {"),
     # the `ucinewgame` arm of the UCI command loop, as a function over the two loop-local variables it can touch
     dict(file="weechess-engine/src/uci.rs", marker='Some((&"ucinewgame", _)) => {', out="ucinewgame_extracted.rs",
          header="#[allow(unused_mut, unused_variables, unused_assignments)]\npub fn ucinewgame_arm<S: SearchLike>(mut current_search: Option<S>, "
@@ -522,6 +527,22 @@ PROPS["C11"] = dict(
              "values x 8 clock pairs (0..65535), canonical spelling", desc="the REAL reader (regex included) returns exactly the components spelled and the "
              "REAL writer reproduces the text character for character", functions=["<Fen as TryFromNotation<State>>::try_from_notation",
              "<Fen as IntoNotation<State>>::into_notation"], timeout=1800),
+        K("c11w", "c11_piece_letter_display_contract", desc="Display for PieceIndex through the real core::fmt: exactly one byte, the letter of the kind, "
+          "upper case for White (the contract the extracted writer is compiled against)", functions=["<PieceIndex as Display>::fmt"], timeout=1500),
+        K("c11w", "c11_writer_fields_contract", desc="the FEN WRITER (whole body extracted verbatim, write! bound to a byte sink): for both sides, all 16 castling "
+          "sets, every en-passant target or none and all clocks 0..999 the written line is the canonical line byte for byte (placement: two kings)",
+          functions=["<Fen as IntoNotation<State>>::into_notation (body, extracted)"], timeout=3000, heavy=True),
+    ] + [
+        K("c11w", "c11_writer_placement_rank_%d" % r, kind="bounded", bound="rank %d fully symbolic (13^8 contents), the other seven ranks empty" % r,
+          desc="the FEN WRITER's placement field: pieces as letters, runs of empty squares merged into one digit, '/' between ranks, ranks 8 to 1",
+          functions=["<Fen as IntoNotation<State>>::into_notation (body, extracted)"], timeout=3000, heavy=True, tier=("quick" if r in (1, 8) else "thorough"))
+        for r in range(1, 9)
+    ] + [
+        K("c11w", "c11_writer_placement_ranks_%s" % r, kind="bounded", bound="two adjacent ranks fully symbolic, the other six empty",
+          desc="the FEN WRITER's placement field across a rank boundary (the run of empty squares is not carried over)",
+          functions=["<Fen as IntoNotation<State>>::into_notation (body, extracted)"], timeout=5400, heavy=True, tier="experimental")
+        for r in ["1_2", "4_5", "7_8"]
+    ] + [
         K("c11", "c11_castling_field_write_and_read_back", tier="experimental", desc="both sides, all 16 castling sets: the writer emits exactly the canonical line "
           "(KQkq order or '-'; whole line compared byte by byte) and the castling-field parser reads the written field back to the same "
           "rights", functions=["<Fen as IntoNotation<State>>::into_notation", "ArrayMap<Color,CastleRights>::try_parse"], timeout=5400, heavy=True),
